@@ -58,6 +58,9 @@ inductive Expr (N : Type) where
   | aggr (name : String) (args : List (Expr N))
   | subq (q : Query N)
   | exists (q : Query N)
+  /-- column reference written as a path-selector text that is more than a key path
+      (`items[0].x`, `tags[(1:end)]`, `o{k|string}`): evaluated by the selector model -/
+  | selc (text : String)
 inductive When (N : Type) where
   | mk (cond val : Expr N)
 inductive SelItem (N : Type) where
@@ -69,6 +72,8 @@ inductive From (N : Type) where
   | table (path : List String) (alias : String) (ident : String)
   | derived (q : Query N) (alias : String)
   | join (jt : JoinType) (l r : From N) (on : Expr N)
+  /-- table named by a selector text that is more than a key path (`t[(0:2)]`, `t[each].items`) -/
+  | tableSel (text : String) (alias : String) (ident : String)
 inductive Cte (N : Type) where
   | mk (name : String) (q : Query N)
 inductive Query (N : Type) where
